@@ -16,7 +16,8 @@
 From Coq Require Import List ZArith Bool Arith Lia Reals Lra PrimFloat.
 Import ListNotations.
 From PP Require Model.C08 Model.C09 Proofs.C09.
-From PP Require Import Model.C10 Proofs.C10 Proofs.C10_clock Proofs.C10_ex.
+From PP Require Import Model.C10 Model.C10_ext Proofs.C10 Proofs.C10_clock Proofs.C10_ex
+     Proofs.C10_gen Proofs.C10_term.
 
 (* Claim 1.  For EVERY verdict pattern and every sequence of increments: after every step
    that converged (and whose compute_time_step did not raise), time-step index 0 and iterate
@@ -135,6 +136,92 @@ Proof. exact ends_at_final_time. Qed.
 Print Assumptions C10_ends_at_final_time.
 Local Close Scope R_scope.
 
+(* Termination (exact real arithmetic, C09_main's hypotheses).  For EVERY verdict pattern the
+   number of attempted time steps of the run is bounded by a number that depends only on the
+   TimeManager configuration: every converged step either advances the clock by at least
+   dt_min or lands exactly on the scheduled time it was shortened onto, and at most
+   recomp_max failed steps fit between two converged ones (one more may raise).  So the time
+   loop cannot run forever: with enough scripted inputs it finishes or raises through the
+   recomputation budget (see C10_never_starved for "enough"). *)
+Local Open Scope R_scope.
+Theorem C10_terminates :
+  forall (V : Type) (vadd : V -> V -> V) (dI dT : nat) (maxit : Z)
+         (a : C09.args R) (sched : list R) (v0 : V) (solves : list (list (V * bool * bool)))
+         (c : C09.cfg R) (st0 : store V) (tr : list (entry V R)) (sp : stop),
+    (1 <= dI)%nat -> (1 <= dT)%nat ->
+    simulate V vadd R C09.ROps maxit a sched (map Z.of_nat (seq 0 dI)) (map Z.of_nat (seq 0 dT))
+             v0 solves = inl (c, st0, (tr, sp)) ->
+    C09.a_constant a = false ->
+    0 < C09.dt_min c -> 0 <= C09.a_rtol a -> 0 <= C09.a_atol a ->
+    C09.well_separated (C09.a_rtol a) (C09.a_atol a) sched ->
+    C09.a_dt_init a <= nth 1 sched 0 - nth 0 sched 0 ->
+    INR (n_converged tr) * C09.dt_min c
+      <= (last sched 0 - nth 0 sched 0) + INR (length sched - 1) * C09.dt_min c /\
+    (Z.of_nat (n_failed tr) <= (Z.of_nat (n_converged tr) + 1) * C09.recomp_max c + 1)%Z /\
+    length tr = (n_converged tr + n_failed tr)%nat.
+Proof. exact terminates. Qed.
+Print Assumptions C10_terminates.
+Local Close Scope R_scope.
+
+(* The model's OutOfEvents stop (an artefact of finite scripted inputs) only occurs when
+   every scripted solve was consumed, or the solve that was cut short had been given fewer
+   inputs than the iteration budget allows.  Any index sets, any arithmetic. *)
+Theorem C10_never_starved :
+  forall (V : Type) (vadd : V -> V -> V) (T : Type) (O : C09.numops T) (maxit : Z)
+         (a : C09.args T) (sched : list T) (iti tsi : list Z) (v0 : V)
+         (solves : list (list (V * bool * bool)))
+         (c : C09.cfg T) (st0 : store V) (tr : list (entry V T)),
+    simulate V vadd T O maxit a sched iti tsi v0 solves = inl (c, st0, (tr, OutOfEvents)) ->
+    length tr = length solves \/
+    exists inp, nth_error solves (length tr) = Some inp /\
+                (Z.of_nat (length inp) <= maxit)%Z.
+Proof. exact never_starved. Qed.
+Print Assumptions C10_never_starved.
+
+(* Claims 1-3 and the clock projection for index ARRAYS in any order and with repetitions:
+   iterate_indices / time_step_indices are arbitrary lists of non-negative integers whose
+   set is 0..m-1 (the shift depth is the length of the list, as in the code).  The
+   time-step dictionary then starts with m keys and grows to the depth: key i holds the
+   i-th entry of (accepted solutions, most recent first, initial values last) followed by
+   m-1 further copies of the initial values.  With [no_exc e] (neither a storage exception
+   nor a raising compute_time_step) iterate 0 is the newest accepted solution, which by the
+   definition of [accepted] is the converged iterate after a converged step and the
+   previous accepted solution after a failed one. *)
+Theorem C10_index_lists :
+  forall (V : Type) (vadd : V -> V -> V) (T : Type) (O : C09.numops T)
+         (iti tsi : list Z) (mI mT : nat),
+    index_set iti mI -> index_set tsi mT ->
+    forall (maxit : Z) (v0 : V) (a : C09.args T) (sched : list T)
+           (solves : list (list (V * bool * bool)))
+           (c : C09.cfg T) (st0 : store V) (tr : list (entry V T)) (sp : stop),
+    simulate V vadd T O maxit a sched iti tsi v0 solves = inl (c, st0, (tr, sp)) ->
+    (forall e, sp <> RaisedStore e) /\
+    (forall pre e post, tr = pre ++ e :: post ->
+       (forall x, e_res e <> NErr x) /\ e_res e <> NOut /\
+       (forall i, slot_get (tss (e_store e)) i
+                  = if i <? length tsi
+                    then nth_error (accepted vadd v0 (pre ++ [e]) ++ repeat v0 (mT - 1)) i
+                    else None) /\
+       (no_exc e = true ->
+          slot_get (its (e_store e)) 0 = Some (hd v0 (accepted vadd v0 (pre ++ [e]))))) /\
+    (forall i, slot_get (tss (final_store st0 tr)) i
+               = if i <? length tsi
+                 then nth_error (accepted vadd v0 tr ++ repeat v0 (mT - 1)) i else None) /\
+    C09.simulate T O a sched (map ev_of tr) = inl (c, (map clock_of tr, stop_of sp)).
+Proof. exact index_lists_thm. Qed.
+Print Assumptions C10_index_lists.
+
+Theorem C10_index_lists_only_constructor_fails :
+  forall (V : Type) (vadd : V -> V -> V) (T : Type) (O : C09.numops T)
+         (iti tsi : list Z) (mI mT : nat),
+    index_set iti mI -> index_set tsi mT ->
+    forall (maxit : Z) (v0 : V) (a : C09.args T) (sched : list T)
+           (solves : list (list (V * bool * bool))) (f : failure),
+    simulate V vadd T O maxit a sched iti tsi v0 solves = inr f ->
+    exists e, f = CtorErr e /\ C09.construct T O a sched = inr e.
+Proof. exact index_lists_only_constructor_fails. Qed.
+Print Assumptions C10_index_lists_only_constructor_fails.
+
 (* ---------------- non-vacuity ---------------- *)
 (* A concrete run (vectors of integers, binary64 clock): depths 2/2, max_iterations = 3,
    schedule [0; 1], dt_init = 1/2; solve 1 diverges at its 2nd iteration, solve 2 converges
@@ -190,3 +277,41 @@ Proof.
   destruct ex_guards as [G1 [G2 [G3 [G4 G5]]]].
   repeat split; try assumption. rewrite Emin. lra.
 Qed.
+
+(* Index arrays [1; 0; 0] (iterates: depth 3, two keys) and [2; 0; 1] (time steps) satisfy
+   [index_set]; the run of C10_nonvacuous with them: the iterate dictionary starts with the
+   keys 0, 1 and grows to depth 3. *)
+Example C10_index_lists_nonvacuous :
+  index_set [1; 0; 0]%Z 2 /\ index_set [2; 0; 1]%Z 3 /\
+  match simulate (list Z) C08.vaddZ float C09.FOps 3 ex_fargs [0%float; 1%float]
+                 [1; 0; 0]%Z [2; 0; 1]%Z [10; 20]%Z ex_solves with
+  | inl (_, st0, (tr, sp)) =>
+      map (fun i => slot_get (its st0) i) [0; 1; 2] = [Some [10; 20]; Some [10; 20]; None]%Z /\
+      map (fun i => slot_get (its (final_store st0 tr)) i) [0; 1; 2; 3]
+      = [Some [17; 28]; Some [17; 27]; Some [16; 27]; None]%Z /\
+      map (fun i => slot_get (tss (final_store st0 tr)) i) [0; 1; 2; 3]
+      = [Some [17; 28]; Some [17; 27]; Some [16; 27]; None]%Z /\ sp = Finished
+  | inr _ => False
+  end.
+Proof.
+  split; [|split].
+  - split; [lia|split; [repeat constructor; lia|]]. intros j. split.
+    + intros [H|[H|[H|[]]]]; lia.
+    + intros H. destruct j as [|[|j]]; [right; left; reflexivity|left; reflexivity|lia].
+  - split; [lia|split; [repeat constructor; lia|]]. intros j. split.
+    + intros [H|[H|[H|[]]]]; lia.
+    + intros H. destruct j as [|[|[|j]]];
+        [right; left; reflexivity|right; right; left; reflexivity|left; reflexivity|lia].
+  - vm_compute. repeat split; reflexivity.
+Qed.
+
+(* A run that is cut short by its scripted inputs (the second solve gets one input although
+   max_iterations = 3 allows four iterations): the OutOfEvents stop of C10_never_starved. *)
+Example C10_never_starved_nonvacuous :
+  match simulate (list Z) C08.vaddZ float C09.FOps 3 ex_fargs [0%float; 1%float]
+                 [0%Z] [0%Z] [10; 20]%Z
+                 [ [([1; 1], true, false)]; [([5; 5], false, false)]; [([1; 1], true, false)] ]%Z with
+  | inl (_, _, (tr, sp)) => sp = OutOfEvents /\ length tr = 1
+  | inr _ => False
+  end.
+Proof. vm_compute. split; reflexivity. Qed.
